@@ -662,6 +662,8 @@ func emitGame(c *Ctx, g *genGame) {
 	} else {
 		c.Count("roundtrip." + rt)
 	}
+	// the class under the safety predicate next to the outcome: `safe` <=> `same` (C12.render_parse_bytes)
+	c.Count("ptnsafe." + strings.ReplaceAll(c.Emit("ptnsafe "+fmtPTN(g.p)), " ", "/"))
 	text := []byte(g.p.Render())
 	if c.R.Chance(1, 3) {
 		text = append(append([]byte{}, bom...), text...)
@@ -759,6 +761,7 @@ func testdataFiles() [][]byte {
 }
 
 func genC12(c *Ctx) {
+	emitBoundary(c) // every clause of the render/parse safety predicate, from both sides (gen_ptn_bound.go)
 	n := c.Scale(2000, 100000) // thorough: 200k plain games took 37 min wall on a loaded 16-core box; 100k with the puzzle games stays under 30
 	for k := 0; k < n; k++ {
 		emitGame(c, randomGame(c))
